@@ -27,6 +27,7 @@ class SimStall(BaseException):
 
 
 STALL_WALL = float(os.environ.get('J1939_STALL_WALL', '10'))
+STORMS = [0]       # runs of this process that were cut as endless exchanges; from the third on the cut comes eight times earlier
 MAX_EVENTS = int(os.environ.get('J1939_MAX_EVENTS', '600000'))      # scheduler events per run (the largest legitimate scenario uses < 100000)
 
 
@@ -306,7 +307,8 @@ class Sim:
         while self.events and self.events[0][0] <= horizon:
             t, _, kind, p = heapq.heappop(self.events)
             self.progress += 1
-            if self.progress > MAX_EVENTS:
+            if self.progress > (MAX_EVENTS if STORMS[0] < 2 else MAX_EVENTS // 8):
+                STORMS[0] += 1
                 # an exchange that never ends (frames answering frames for ever): cut the run, the storm is part of the trace
                 self.trace.append((self.now, -1, 'STORM', self.progress))
                 self.events.clear()
